@@ -265,6 +265,8 @@ def build():
     for n_req in (0, 1, 2, 3):
         for n_old in (0, 1, 2):
             heavy = (n_req + n_old) >= 4
+            if n_req + n_old >= 5:
+                continue        # 3 requests x 2 earlier pending: 128 cases of several minutes each -- beyond the thorough tier's budget (about 2 h); not claimed
             for pre in splits(n_req, n_old):
                 tag = "".join(str(v) for v in pre.values())
                 R.add(f"deliver[{n_req} requests][{n_old} earlier pending]" + (f"[case {tag}]" if pre else ""), kind="lia",
@@ -334,6 +336,42 @@ def build():
         ctx.check("request-handed-to-the-network-stack", len(ex.network_stack.requests) == 1 and ex.network_stack.requests[0] is d.request)
         ctx.check("nothing-registered-for-receive", len(ex._epr_recv_requests) == 0)
     R.add("register[create_epr]", kind="lia", samples=30)(register_create)
+
+    def register_two_sockets(ctx):
+        """two requests through EPR sockets that have the SAME local socket id but lead to DIFFERENT remote nodes, on a network stack whose purpose id
+        depends on the remote node: each request is registered (and sent) under ITS OWN (remote node, purpose id)"""
+        from .exec_common import Stack
+
+        class StackByRemote(Stack):
+            def get_purpose_id(self, remote_node_id, epr_socket_id):
+                return 10 * remote_node_id + epr_socket_id
+        ex = new_executor(ctx, apps=(0,))
+        ex.network_stack = StackByRemote()
+        ex._subroutines[SID] = Subroutine(app_id=0)
+        if ctx.symbolic:
+            _install(ctx, ex, False)
+        sock = ctx.choice("socket id of both sockets", [0, 1])
+        r1 = ctx.choice("remote node of the first socket", [1, 2, 3])
+        r2 = ctx.choice("remote node of the second socket", [1, 2, 3])
+        roles = (ctx.choice("first request", ["create", "recv"]), ctx.choice("second request", ["create", "recv"]))
+        args = [RequestType.K.value, 1] + [None] * (len(LinkLayerCreate._fields) - 4)
+        ex._app_arrays[0]._arrays = {7: list(args), 8: [0], 9: [None] * 10, 17: list(args), 18: [1], 19: [None] * 10}
+        for k, (role, remote) in enumerate(zip(roles, (r1, r2))):
+            base = 10 * k
+            if role == "create":
+                ctx.call(ex._do_create_epr, subroutine_id=SID, remote_node_id=remote, epr_socket_id=sock, q_array_address=base + 8, arg_array_address=base + 7,
+                         ent_results_array_address=base + 9)
+            else:
+                ctx.call(ex._do_recv_epr, subroutine_id=SID, remote_node_id=remote, epr_socket_id=sock, q_array_address=base + 8, ent_results_array_address=base + 9)
+        for k, (role, remote) in enumerate(zip(roles, (r1, r2))):
+            table = ex._epr_create_requests if role == "create" else ex._epr_recv_requests
+            key = (remote, 10 * remote + sock)
+            q = [d for d in table.get(key, []) if d.ent_results_array_address == 10 * k + 9]
+            ctx.check(f"request {k}: registered under (its remote node, the purpose id the stack gives for that node and socket)", len(q) == 1)
+        sent = ex.network_stack.requests
+        want = [(remote, 10 * remote + sock) for role, remote in zip(roles, (r1, r2)) if role == "create"]
+        ctx.check("create requests are sent with their own remote node and purpose id", [(r.remote_node_id, r.purpose_id) for r in sent] == want)
+    R.add("register[two sockets with the same local id to different nodes]", kind="lia", samples=72, max_paths=400)(register_two_sockets)
 
     # ------------------------------------------------------------- wait instructions: exit only when defined
     def mk_wait(kind):
@@ -435,6 +473,9 @@ def build():
             common = dict(create_id=ctx.int("create_id", 0, 2 ** 31), directionality_flag=ctx.int("directionality_flag", 0, 1), sequence_number=ctx.int("sequence_number", 0, 2 ** 31),
                           purpose_id=ctx.int("purpose_id", 0, 2 ** 16), remote_node_id=ctx.int("remote_node_id", 0, 2 ** 16), goodness=ctx.int("goodness", 0, 2 ** 31),
                           bell_state=ctx.enum("bell_state", q10.BellState))
+            bell_member = common["bell_state"]
+            if kind != "error" and ctx.choice("bell_state passed as", ["member", "plain int (as read from the wire)"]) != "member":
+                common["bell_state"] = ctx.getattr(bell_member, "value")
             if kind == "keep":
                 r = q10.ResCreateAndKeep(logical_qubit_id=ctx.int("logical_qubit_id", 0, 2 ** 16), time_of_goodness=ctx.int("time_of_goodness", 0, 2 ** 31), **common)
                 pairs = [("logical_qubit_id", "logical_qubit_id"), ("goodness_time", "time_of_goodness")]
@@ -457,7 +498,7 @@ def build():
                 ctx.check(f"field[{a}] carried over", _same(ctx, getattr(out, a), getattr(r, b)))
             if kind != "error":
                 # the two interfaces NUMBER the Bell states differently: the converted value must be netqasm's member of the same NAME
-                ctx.check("field[bell_state] denotes the same Bell state in netqasm's own enumeration", _same_name(ctx, out.bell_state, r.bell_state, QC.BellState))
+                ctx.check("field[bell_state] denotes the same Bell state in netqasm's own enumeration", _same_name(ctx, out.bell_state, bell_member, QC.BellState))
             if kind == "measure":
                 ctx.check("field[measurement_basis] denotes the same basis in netqasm's own enumeration", _same_name(ctx, out.measurement_basis, r.measurement_basis, QC.Basis))
         return f
